@@ -33,12 +33,17 @@ template<class X> inline void note_pos_rt(int, const X&) {}
 template<class A> constexpr void note_pos(int R, const A& a) { if (!__builtin_is_constant_evaluated()) note_pos_rt(R, a); }
 template<int R> struct F { template<class... A> constexpr uint64_t operator()(A&&... a) const { uint64_t h = hcomb(0xabcd, uint64_t(R)); ((h = hcomb(h, val(a)), note_pos(R, a)), ...); return h; } };
 // spelled terminals: the grammar's namespace supplies M::term_of(lexeme)
+// run-time-only programs: a term value type that owns memory (not trivially copyable), as typed terms returning std::string / std::vector have
+struct Owned { uint64_t h = 0; std::string keep; operator uint64_t() const { return h; } };
+struct TO { int t; Owned operator()(std::string_view sv) const { return Owned{term_hash(t, sv), std::string(sv) + " (owned copy, long enough to live on the heap)"}; } };
+inline uint64_t val(const term_value<Owned>& t) { return t.get_value().keep.size() > 40 ? t.get_value().h : 0xdeadULL; }
 constexpr uint64_t val2(uint64_t v) { return v; }
 constexpr uint64_t val2(no_type) { return 0xe44044ULL; }
 template<class M> struct V2 {
   static constexpr uint64_t of(uint64_t v) { return v; }
   static constexpr uint64_t of(no_type) { return 0xe44044ULL; }
   static constexpr uint64_t of(const term_value<uint64_t>& t) { return t.get_value(); }
+  static uint64_t of(const term_value<Owned>& t) { return t.get_value().keep.size() > 40 ? t.get_value().h : 0xdeadULL; }
   static constexpr uint64_t of(const term_value<char>& t) { char c = t.get_value(); return term_hash(M::term_of(std::string_view(&c, 1)), std::string_view(&c, 1)); }
   static constexpr uint64_t of(const term_value<std::string_view>& t) { return term_hash(M::term_of(t.get_value()), t.get_value()); }
 };
@@ -118,6 +123,8 @@ def render_grammar(gi, case, with_cases=True, lite=False, ctxmix=False, customle
         import zlib as _z
         stateful = _z.crc32(json.dumps(g["rules"], sort_keys=True).encode()) % 2 == 1      # typed / custom terms share one functor type in half of the programs
         tfun = (lambda t: "hh::TS{%d}" % t) if stateful else (lambda t: "hh::TF<%d>{}" % t)
+        if lite and _z.crc32(json.dumps(g["rules"], sort_keys=True).encode()) % 3 == 2:
+            tfun = lambda t: "hh::TO{%d}" % t          # typed / custom terms whose value owns memory
         for t, (ti, sp) in enumerate(zip(g["terms"], spelling)):
             assoc = "associativity::" + ["no_assoc", "ltor", "rtol"][ti["assoc"]]
             plain = ti["prec"] == 0 and ti["assoc"] == 0
@@ -435,6 +442,7 @@ def big_grammar_source(K, texts):
     kws = ["kw%02d" % i for i in range(K)]
     ends = ["e%02d" % i if i % 3 else chr(ord('A') + i // 3) for i in range(K)]      # string terms and (every third) char terms
     parts = [PRELUDE, "#include <vector>\nnamespace big {\nconstexpr char numpat[] = \"[0-9]+\"; constexpr regex_term<numpat> num(\"num\");\n"
+             "constexpr char hashpat[] = \"#[0-9a-f]{40}\"; constexpr regex_term<hashpat> hash(\"hash\");   // a counted repetition: many automaton states for a short pattern text\n"
              "constexpr nterm<std::vector<long>> prog(\"prog\"); constexpr nterm<long> stmt(\"stmt\"), expr(\"expr\"), term(\"term\");\n"
              "struct lim { static const size_t state_count_cap = %d; static const size_t max_sit_count_per_state_cap = %d; };" % (K * 20 + 150, (2 * K + 2) * (K + 3) + 200)]
     for i in range(K):
@@ -449,12 +457,13 @@ def big_grammar_source(K, texts):
              "expr(expr, '+', term) >= [](long a, skip, long b) { return (a + b) % 1000; }",
              "expr(expr, '<', term) >= [](long a, skip, long b) { return long(a < b); }",        # a term whose id is a prefix of the error symbol's and the eof symbol's ids
              "term(num) >= [](std::string_view sv) { long v = 0; for (char c : sv) v = (v * 10 + (c - '0')) % 1000; return v; }",
+             "term(hash) >= [](std::string_view sv) { return long(sv[1] >= 'a' ? sv[1] - 'a' + 10 : sv[1] - '0') + 500L; }",
              "term('(', expr, ')') >= ftors::_e2",
              "term('(', error, ')') >= ftors::val(995L)"]        # an error rule deep inside: its error-shift targets are discovered late (high state numbers)
     for i in range(K):
         rules.append('stmt("%s", expr, E%d, \';\') >= [](skip, long v, skip, skip) { return %dL + v; }' % (kws[i], i, i * 1000))
         rules.append('stmt("%s", error, E%d, \';\') >= ftors::val(%dL)' % (kws[i], i, -(i + 2)))      # an error rule in every context: error-shift targets spread over the state numbers
-    terms = ["num", "'+'", "'<'", "'('", "')'", "';'"] + ['"%s"' % k for k in kws] + ["E%d" % i for i in range(K)]
+    terms = ["num", "hash", "'+'", "'<'", "'('", "')'", "';'"] + ['"%s"' % k for k in kws] + ["E%d" % i for i in range(K)]
     parts.append("inline const auto& the_parser() { static const auto* p = new parser(prog, terms(%s), nterms(prog, stmt, expr, term), rules(\n  %s), use_generated_lexer{}, lim{}); return *p; }"
                  % (", ".join(terms), ",\n  ".join(rules)))
     parts.append("}")
@@ -480,7 +489,7 @@ def big_tables(kws, ends):
     K = len(kws)
     # rule = (lhs, rhs tuple, semantic tag)
     R = [("S'", ("prog",), None), ("prog", (), ("list0",)), ("prog", ("prog", "stmt"), ("append",)), ("stmt", ("error", ";"), ("val", -1)),
-         ("expr", ("term",), ("e", 0)), ("expr", ("expr", "+", "term"), ("add",)), ("expr", ("expr", "<", "term"), ("lt",)), ("term", ("num",), ("num",)),
+         ("expr", ("term",), ("e", 0)), ("expr", ("expr", "+", "term"), ("add",)), ("expr", ("expr", "<", "term"), ("lt",)), ("term", ("num",), ("num",)), ("term", ("hash",), ("hash",)),
          ("term", ("(", "expr", ")"), ("e", 1)), ("term", ("(", "error", ")"), ("val", 995))]
     for i in range(K):
         R.append(("stmt", (kws[i], "expr", "E%d" % i, ";"), ("ctx", i)))
@@ -562,7 +571,7 @@ def big_eval(text, kws, ends):
     import re
     toks = []
     pos = 0
-    tok_re = re.compile(r"\s*(kw\d\d|e\d\d|[A-Z]|[0-9]+|[+<();])")
+    tok_re = re.compile(r"\s*(kw\d\d|e\d\d|[A-Z]|[0-9]+|#[0-9a-f]{40}|[+<();])")
     while pos < len(text):
         m = tok_re.match(text, pos)
         if not m:
@@ -578,6 +587,7 @@ def big_eval(text, kws, ends):
     def sym(t):
         if t == "$": return "$"
         if t.isdigit(): return "num"
+        if t[0] == "#": return "hash"
         if t in ends: return "E%d" % ends.index(t)
         return t
     toks.append("$")
@@ -619,6 +629,7 @@ def big_eval(text, kws, ends):
             elif tag[0] == "e": v = args[tag[1]]
             elif tag[0] == "add": v = (args[0] + args[2]) % 1000
             elif tag[0] == "lt": v = 1 if args[0] < args[2] else 0
+            elif tag[0] == "hash": v = int(args[0][1], 16) + 500
             elif tag[0] == "num":
                 v = 0
                 for c in args[0]: v = (v * 10 + int(c)) % 1000
@@ -640,7 +651,7 @@ def big_texts(seed, n, K, kws, ends):
             if d < 4 and rnd.random() < 0.35:
                 ps += ["("] + expr(d + 1) + [")"]
             else:
-                ps.append(str(rnd.randint(0, 9999)))
+                ps.append(str(rnd.randint(0, 9999)) if rnd.random() < 0.9 else "#" + "".join(rnd.choice("0123456789abcdef") for _ in range(40)))
             ps.append("+" if rnd.random() < 0.8 else "<")
         return ps[:-1]
     out = []
@@ -679,7 +690,7 @@ def run_big(pid, tier, seed, work, viol_dir):
             vp = os.path.join(viol_dir, "%s_compile_big.json" % pid)
             json.dump({"check": pid, "kind": "programbig", "compiler": cxx, "source": src_text, "what": "generated program does not compile", "log": res["log"], "texts": texts, "K": K}, open(vp, "w"))
             errs = [l for l in res["log"].splitlines() if "error" in l][:1]
-            violations.append(("a grammar of %d rules / %d terms with custom limits does not compile with %s: %s" % (K + 7, 2 * K + 5, cxx, errs[0][:200] if errs else ""), vp))
+            violations.append(("a grammar of %d rules / %d terms with custom limits does not compile with %s: %s" % (2 * K + 10, 2 * K + 7, cxx, errs[0][:200] if errs else ""), vp))
         return violations, evaluations, nontrivial, notes, labels
     out = res["out"]
     info = [l for l in out.splitlines() if l.startswith("BIGINFO")]
@@ -687,7 +698,7 @@ def run_big(pid, tier, seed, work, viol_dir):
     if exc or not info:
         vp = os.path.join(viol_dir, "%s_big_construct.json" % pid)
         json.dump({"check": pid, "kind": "programbig", "compiler": cxx, "source": src_text, "what": "construction failed", "texts": texts, "K": K}, open(vp, "w"))
-        violations.append(("a conflict-free grammar of %d rules / %d terms could not be constructed with limits that suffice (%s): %s" % (K + 7, 2 * K + 5, cxx, exc[0][7:200] if exc else "no output, rc=%s" % res.get("rc")), vp))
+        violations.append(("a conflict-free grammar of %d rules / %d terms could not be constructed with limits that suffice (%s): %s" % (2 * K + 10, 2 * K + 7, cxx, exc[0][7:200] if exc else "no output, rc=%s" % res.get("rc")), vp))
         return violations, evaluations, nontrivial, notes, labels
     try:
         labels["big-grammar:lr1-states"] = int(info[0].split("=")[1])
@@ -764,6 +775,9 @@ def render_c17b(cases):
             out.append("constexpr nterm<uint64_t> " + ", ".join('N%d("%s")' % (i, nname(i, nN)) for i in range(nN)) + ";")
             # terms are string terms whose spellings are prefixes of each other, longest declared first (nothing is parsed here)
             tsp = lambda t: '"%s"' % ("t" * (g["nT"] - t))
+            if (len(g["text"]) + gi) % 3 == 0 and kind != "regex-name":
+                # every third grammar: the terminals are control-character char terms, whose ids are generated \\xHH strings (pairs share a low nibble or a 16-block)
+                tsp = lambda t: ["'\\x01'", "'\\x11'", "'\\x0e'", "'\\x1e'", "'\\x81'", "'\\x02'"][t % 6]
             terms = [tsp(t) for t in range(g["nT"]) if not (kind == "term" and t == which)]
             if kind == "regex-name":
                 # terminal `which` is a declared regex term "num"; the rules use a different, undeclared regex term that is also called "num"
@@ -804,12 +818,18 @@ def render_c17b(cases):
 # ---- C13: contexts through the DSL front end (operator order, >= / >>= mix) ---------------------------------------
 C13_PRELUDE = r"""
 namespace cc {
-struct Ctx { std::vector<int> seen; };
+inline int& copies() { static int n = 0; return n; }
+// the caller's context: copies and moves of it are counted (a parse hands the caller's OBJECT to the functors; it never needs another one)
+struct Ctx { std::vector<int> seen; Ctx() = default; Ctx(const Ctx& o) : seen(o.seen) { ++copies(); } Ctx(Ctx&& o) : seen(std::move(o.seen)) { ++copies(); }
+             Ctx& operator=(const Ctx& o) { seen = o.seen; ++copies(); return *this; } Ctx& operator=(Ctx&& o) { seen = std::move(o.seen); ++copies(); return *this; } };
 inline int& missing() { static int m = 0; return m; }
+// a contextual functor that has no use for the context and says so with the library's placeholder type
+template<int R> struct FSK { template<class... A> uint64_t operator()(skip, A&&... a) const { return hh::F<R>{}(a...); } };
 // callable with and without a context: a rule that silently lost its 'contextual' flag is observed at run time
 template<int R> struct FC2 {
   template<class... A> uint64_t operator()(Ctx& c, A&&... a) const { c.seen.push_back(R); return hh::F<R>{}(a...); }
   template<class... A> uint64_t operator()(const Ctx& c, A&&... a) const { (void)c; return hh::F<R>{}(a...); }
+  template<class... A> uint64_t operator()(Ctx&& c, A&&... a) const { c.seen.push_back(R); return hh::F<R>{}(a...); }          // context_parse(std::move(ctx), ...): still the caller's object
   template<class... A> uint64_t operator()(no_type, A&&... a) const { return hh::F<R>{}(a...); }      // plain parse(): the context is no_type
   template<class... A> uint64_t operator()(A&&... a) const { missing()++; return hh::F<R>{}(a...); }
 };
@@ -819,6 +839,11 @@ template<int R> struct FC2 {
 
 def c13_contextual(r):
     return (r["slot"] % 2 == 1) and not r.get("default_functor")
+
+
+def c13_skipctx(r):
+    """contextual rules whose functor takes the context as `skip`"""
+    return c13_contextual(r) and r["slot"] % 3 == 0
 
 
 def render_c13(gi, case, rnd):
@@ -858,7 +883,7 @@ def render_c13(gi, case, rnd):
             txt = base + ("[%d]" % prec if prec is not None else "")
             forms.append("default")
         else:
-            f = ("cc::FC2<%d>{}" % r["slot"]) if c13_contextual(r) else ("hh::F<%d>{}" % r["slot"])
+            f = ("cc::FSK<%d>{}" % r["slot"]) if c13_skipctx(r) else ("cc::FC2<%d>{}" % r["slot"]) if c13_contextual(r) else ("hh::F<%d>{}" % r["slot"])
             op = ">>=" if c13_contextual(r) else ">="
             if prec is not None and rnd.random() < 0.5:
                 txt = "(%s %s %s)[%d]" % (base, op, f, prec)
@@ -874,9 +899,10 @@ def render_c13(gi, case, rnd):
         lit = cstr(bytes.fromhex(inp["hex"]))
         n = len(bytes.fromhex(inp["hex"]))
         opts = "parse_options{}.set_skip_whitespace(%s).set_skip_newline(%s)" % ("true" if inp["ws"] else "false", "true" if inp["nl"] else "false")
-        out.append('  { static const char lit[] = %s; cc::Ctx c; cc::missing() = 0; std::ostringstream os; auto r = p->context_parse(c, %s, string_view_buffer(std::string_view(lit, %d)), os);' % (lit, opts, n))
+        out.append('  { static const char lit[] = %s; cc::Ctx c; cc::missing() = 0; cc::copies() = 0; std::ostringstream os; auto r = p->context_parse(c, %s, string_view_buffer(std::string_view(lit, %d)), os);' % (lit, opts, n))
         out.append('    const cc::Ctx cconst; std::ostringstream os2; auto r2 = p->context_parse(cconst, %s, string_view_buffer(std::string_view(lit, %d)), os2); int missing_ctx = cc::missing(); utils::no_stream ns; auto r3 = p->parse(%s, string_view_buffer(std::string_view(lit, %d)), ns);' % (opts, n, opts, n))
-        out.append('    std::printf("CTX %s %d acc=%%d missing=%%d same=%%d seen=", r.has_value() ? 1 : 0, missing_ctx, (r.has_value() == r2.has_value() && r.has_value() == r3.has_value() && (!r.has_value() || (r.value() == r2.value() && r.value() == r3.value()))) ? 1 : 0); for (int x : c.seen) std::printf("%%d,", x); std::printf("\\n"); }' % (ns, k))
+        out.append('    cc::Ctx c4; std::ostringstream os4; auto r4 = p->context_parse(std::move(c4), %s, string_view_buffer(std::string_view(lit, %d)), os4); int cpy = cc::copies() + ((c4.seen == c.seen && r4.has_value() == r.has_value()) ? 0 : 1000);' % (opts, n))
+        out.append('    std::printf("CTX %s %d acc=%%d missing=%%d same=%%d cpy=%%d seen=", r.has_value() ? 1 : 0, missing_ctx, (r.has_value() == r2.has_value() && r.has_value() == r3.has_value() && (!r.has_value() || (r.value() == r2.value() && r.value() == r3.value()))) ? 1 : 0, cpy); for (int x : c.seen) std::printf("%%d,", x); std::printf("\\n"); }' % (ns, k))
     out.append("  delete p;")
     out.append("}")
     out.append("}")
@@ -921,6 +947,9 @@ def parse_case_lines(out):
         key = (w[1], int(w[2]))
         d = {}
         for f in w[3:]:
+            if "=" not in f:
+                d.setdefault("_malformed", []).append(f)          # a torn line (the program died while printing): the missing fields are reported as a failed case
+                continue
             k, v = f.split("=", 1)
             d[k] = v
         res[key] = d
@@ -943,6 +972,10 @@ def emit_cases(seed, n, work, spelling=True, only_class=None, named_terms=False,
         env["EMIT_ALWAYS_SPELLED"] = "1"
     if same_names:
         env["EMIT_SAME_NAMES"] = "1"; env["EMIT_NAMED_TERMS"] = "1"
+    if os.environ.get("_EMIT_PID") in ("C11", "C17", "C01"):
+        env["EMIT_CONTROL_TERMS"] = "1"
+    if os.environ.get("_EMIT_PID") in ("C01", "C02"):
+        env["EMIT_SEED_GALLERY"] = "1"
     if os.environ.get("_EMIT_PID") in ("C09", "C10"):
         env["EMIT_GIANT_LEXEME"] = "1"
     if os.environ.get("_EMIT_PID") == "C18":
@@ -980,7 +1013,7 @@ def run(pid, tier, seed, work, viol_dir, known_ids=()):
         cases = json.load(open(outp))["cases"]
         log = ""
     ncases = {"C03": {"quick": 16, "thorough": 160}, "C07": {"quick": 24, "thorough": 240}, "C17": {"quick": 8, "thorough": 60}, "C13": {"quick": 16, "thorough": 160},
-              "C01": {"quick": 16, "thorough": 160}, "C02": {"quick": 16, "thorough": 160}, "C05": {"quick": 16, "thorough": 160}, "C09": {"quick": 16, "thorough": 160}, "C18": {"quick": 12, "thorough": 120}, "C10": {"quick": 12, "thorough": 120}, "C11": {"quick": 12, "thorough": 120}, "C16": {"quick": 12, "thorough": 120}}[pid][tier]
+              "C01": {"quick": 32, "thorough": 160}, "C02": {"quick": 32, "thorough": 160}, "C05": {"quick": 16, "thorough": 160}, "C09": {"quick": 16, "thorough": 160}, "C18": {"quick": 12, "thorough": 120}, "C10": {"quick": 12, "thorough": 120}, "C11": {"quick": 12, "thorough": 120}, "C16": {"quick": 12, "thorough": 120}}[pid][tier]
     os.environ["_EMIT_PID"] = pid
     if pid != "C03":
       cases, log = emit_cases((seed + {"C01": 101, "C02": 202, "C05": 505, "C09": 909, "C18": 1818, "C10": 1010, "C11": 1111, "C16": 1616}.get(pid, 0)) % 0x7FFFFFFF or 1, ncases, work, spelling=(pid in ("C07", "C01", "C02", "C05", "C09", "C18", "C10", "C11", "C16")), only_class=(1 if pid == "C05" else None), named_terms=(pid == "C09"), always_spelled=(pid in ("C18", "C10", "C11", "C16")), same_names=(pid in ("C01", "C02")))
@@ -1266,8 +1299,8 @@ def run(pid, tier, seed, work, viol_dir, known_ids=()):
             for ln in res["out"].splitlines():
                 if ln.startswith("CTX "):
                     w = ln.split()
-                    got[int(w[2])] = {"acc": int(w[3].split("=")[1]), "missing": int(w[4].split("=")[1]), "same": int(w[5].split("=")[1]), "seen": [int(x) for x in w[6].split("=")[1].split(",") if x]}
-            ctx_slots = {r["slot"] for r in case["grammar"]["rules"] if c13_contextual(r)}
+                    got[int(w[2])] = {"acc": int(w[3].split("=")[1]), "missing": int(w[4].split("=")[1]), "same": int(w[5].split("=")[1]), "cpy": int(w[6].split("=")[1]), "seen": [int(x) for x in w[7].split("=")[1].split(",") if x]}
+            ctx_slots = {r["slot"] for r in case["grammar"]["rules"] if c13_contextual(r) and not c13_skipctx(r)}
             for k, inp in enumerate(case["inputs"]):
                 evaluations += 1
                 want_seen = [sl for sl in inp.get("reduces", []) if sl in ctx_slots]
@@ -1283,6 +1316,10 @@ def run(pid, tier, seed, work, viol_dir, known_ids=()):
                     what = "contextual functors did not see the caller's context in reduction order"
                 elif not d["same"]:
                     what = "parse, context_parse(non-const&) and context_parse(const&) disagree"
+                elif d["cpy"] >= 1000:
+                    what = "context_parse(std::move(ctx), ...): the functors did not work on the caller's object for the whole parse (it was moved from, or the result differs)"
+                elif d["cpy"]:
+                    what = "the caller's context object was copied or moved %d times during the parses (a functor that takes the context as `skip` included)" % d["cpy"]
                 if what:
                     vp = os.path.join(viol_dir, "%s_%s.json" % (pid, hashlib.sha1((json.dumps(case["grammar"]) + inp["hex"] + cxx).encode()).hexdigest()[:12]))
                     json.dump({"check": pid, "kind": "program13", "compiler": cxx, "what": what, "observed": d, "expected_seen": want_seen, "input": inp, "source": open(src).read(), "gi": gi, "k": k, "forms": forms_of[gi]}, open(vp, "w"))
@@ -1294,7 +1331,7 @@ def run(pid, tier, seed, work, viol_dir, known_ids=()):
                 lab("rule-form:" + fm)
             lab("compiler:" + cxx)
         samples = [{"grammar": c["grammar"]["text"], "rule_forms": forms_of[i][:6]} for i, c in enumerate(cases[:3])]
-    else:  # C17 (b)
+    elif pid == "C17":  # C17 (b)
         src = os.path.join(work, "bad_0.cpp")
         text, meta = render_c17b(cases)
         open(src, "w").write(text)
@@ -1403,8 +1440,8 @@ def replay(path):
         for ln in res["out"].splitlines():
             if k is not None and ln.startswith("CTX g%d %d " % (d["gi"], k)):
                 w = ln.split()
-                missing = int(w[4].split("=")[1]); same = int(w[5].split("=")[1]); seen = [int(x) for x in w[6].split("=")[1].split(",") if x]
-                ok = (not missing) and same and seen == d["expected_seen"] and int(w[3].split("=")[1]) == (1 if d["input"]["accept"] else 0)
+                missing = int(w[4].split("=")[1]); same = int(w[5].split("=")[1]); cpy = int(w[6].split("=")[1]); seen = [int(x) for x in w[7].split("=")[1].split(",") if x]
+                ok = (not missing) and same and (not cpy) and seen == d["expected_seen"] and int(w[3].split("=")[1]) == (1 if d["input"]["accept"] else 0)
                 print("REPLAY %s %s" % (d["check"], "PASS" if ok else "FAIL"))
                 return 0 if ok else 1
         print("REPLAY %s FAIL (no result)" % d["check"])
